@@ -1097,7 +1097,17 @@ class Authenticated(BaseClientHandler):
         # Build a set of all returned folder names so we can verify
         # \HasChildren / \HasNoChildren correctness.
         #
+        # NOTE: Whether a folder has children does not depend on which
+        #       folders this LIST happens to return (`LIST "" %` returns only
+        #       the top level), so look at the names of all the folders.
+        #
         all_names = {name for name, _, _ in results}
+        async for (name,) in self.server.db.query(
+            "SELECT name FROM mailboxes WHERE attributes NOT LIKE '%ignored%'"
+        ):
+            all_names.add(name)
+            if name.lower().startswith("inbox/"):
+                all_names.add("INBOX" + name[5:])
         for mbox_name, attributes, child_info in results:
             has_children = any(n.startswith(mbox_name + "/") for n in all_names)
             if has_children:
